@@ -379,7 +379,9 @@ class FilterAnalyzer(desc.ResetMixin):
         # a is always 1:
         a = [1]
 
-        sig = ts.TimeSeries(data=self._ts.data,
+        # work on a copy: when neither bound asks for filtering this series is
+        # what is returned, and it must not share its data with the input
+        sig = ts.TimeSeries(data=np.copy(self._ts.data),
                             sampling_rate=self._ts.sampling_rate,
                             t0=self._ts.t0,
                             time_unit=self._ts.time_unit)
